@@ -537,3 +537,83 @@ package boltz
 //@   ensures[float64-entries] old(b.Err) == nil && b.Err == nil ==> forallStr(k, has(value, k) && istype(value[k], float64) ==> istype(result[k], float64) && as(result[k], float64) == as(value[k], float64))
 //@   ensures[time-entries] old(b.Err) == nil && b.Err == nil ==> forallStr(k, has(value, k) && istype(value[k], time.Time) ==> istype(result[k], time.Time) && timeInstant(as(result[k], time.Time)) == timeInstant(as(value[k], time.Time)))
 //@   ensures[bool-entries] old(b.Err) == nil && b.Err == nil ==> forallStr(k, has(value, k) && istype(value[k], bool) ==> istype(result[k], bool) && as(result[k], bool) == as(value[k], bool))
+
+// ---- field-restricted writes through a persist context (base.go): every setter passes the context's checker ----
+//@ func (*PersistContext).SetString
+//@   props C13
+//@   assume ctx.Bucket != nil && ctx.Bucket.ErrorHolderImpl != nil && ctx.Bucket.Bucket != nil
+//@   modifies ctx.Bucket.Err, bktHas[ctx.Bucket.Bucket], bktVal[ctx.Bucket.Bucket]
+//@   ensures[skipped] !proceeds(ctx.Bucket, field, ctx.FieldChecker) ==> ctx.Bucket.Err == old(ctx.Bucket.Err) && kept(ctx.Bucket)
+//@   ensures[written] proceeds(ctx.Bucket, field, ctx.FieldChecker) && ctx.Bucket.Err == nil ==> wrote(ctx.Bucket, field, prepend(TypeString, value))
+//@ func (*PersistContext).SetStringP
+//@   props C13
+//@   assume ctx.Bucket != nil && ctx.Bucket.ErrorHolderImpl != nil && ctx.Bucket.Bucket != nil
+//@   modifies ctx.Bucket.Err, bktHas[ctx.Bucket.Bucket], bktVal[ctx.Bucket.Bucket]
+//@   ensures[skipped] !proceeds(ctx.Bucket, field, ctx.FieldChecker) ==> ctx.Bucket.Err == old(ctx.Bucket.Err) && kept(ctx.Bucket)
+//@   ensures[written] proceeds(ctx.Bucket, field, ctx.FieldChecker) && ctx.Bucket.Err == nil ==> wrote(ctx.Bucket, field, ite(value == nil, nilEnc(), prepend(TypeString, *value)))
+//@ func (*PersistContext).SetTimeP
+//@   props C13
+//@   assume ctx.Bucket != nil && ctx.Bucket.ErrorHolderImpl != nil && ctx.Bucket.Bucket != nil
+//@   modifies ctx.Bucket.Err, bktHas[ctx.Bucket.Bucket], bktVal[ctx.Bucket.Bucket]
+//@   ensures[skipped] !proceeds(ctx.Bucket, field, ctx.FieldChecker) ==> ctx.Bucket.Err == old(ctx.Bucket.Err) && kept(ctx.Bucket)
+//@   ensures[written] proceeds(ctx.Bucket, field, ctx.FieldChecker) && ctx.Bucket.Err == nil ==> wrote(ctx.Bucket, field, ite(value == nil, nilEnc(), prepend(TypeTime, timeBin(timeInstant(*value)))))
+//@ func (*PersistContext).SetBool
+//@   props C13
+//@   assume ctx.Bucket != nil && ctx.Bucket.ErrorHolderImpl != nil && ctx.Bucket.Bucket != nil
+//@   modifies ctx.Bucket.Err, bktHas[ctx.Bucket.Bucket], bktVal[ctx.Bucket.Bucket]
+//@   ensures[skipped] !proceeds(ctx.Bucket, field, ctx.FieldChecker) ==> ctx.Bucket.Err == old(ctx.Bucket.Err) && kept(ctx.Bucket)
+//@   ensures[written] proceeds(ctx.Bucket, field, ctx.FieldChecker) && ctx.Bucket.Err == nil ==> wrote(ctx.Bucket, field, encBool(value))
+//@ func (*PersistContext).SetInt32
+//@   props C13
+//@   assume ctx.Bucket != nil && ctx.Bucket.ErrorHolderImpl != nil && ctx.Bucket.Bucket != nil
+//@   modifies ctx.Bucket.Err, bktHas[ctx.Bucket.Bucket], bktVal[ctx.Bucket.Bucket]
+//@   ensures[skipped] !proceeds(ctx.Bucket, field, ctx.FieldChecker) ==> ctx.Bucket.Err == old(ctx.Bucket.Err) && kept(ctx.Bucket)
+//@   ensures[written] proceeds(ctx.Bucket, field, ctx.FieldChecker) && ctx.Bucket.Err == nil ==> wrote(ctx.Bucket, field, prepend(TypeInt32, le32(u32(value))))
+//@ func (*PersistContext).SetInt64
+//@   props C13
+//@   assume ctx.Bucket != nil && ctx.Bucket.ErrorHolderImpl != nil && ctx.Bucket.Bucket != nil
+//@   modifies ctx.Bucket.Err, bktHas[ctx.Bucket.Bucket], bktVal[ctx.Bucket.Bucket]
+//@   ensures[skipped] !proceeds(ctx.Bucket, field, ctx.FieldChecker) ==> ctx.Bucket.Err == old(ctx.Bucket.Err) && kept(ctx.Bucket)
+//@   ensures[written] proceeds(ctx.Bucket, field, ctx.FieldChecker) && ctx.Bucket.Err == nil ==> wrote(ctx.Bucket, field, prepend(TypeInt64, le64(u64(value))))
+//@ func (*PersistContext).ProceedWithSet
+//@   props C13
+//@   assume ctx.Bucket != nil && ctx.Bucket.ErrorHolderImpl != nil
+//@   pure
+//@   ensures[proceed-iff] result == (ctx.Bucket.Err == nil && (ctx.FieldChecker == nil || fcUpd(ctx.FieldChecker, field)))
+//@ func (*PersistContext).SetRequiredString
+//@   props C13
+//@   assume ctx.Bucket != nil && ctx.Bucket.ErrorHolderImpl != nil && ctx.Bucket.Bucket != nil
+//@   modifies ctx.Bucket.Err, bktHas[ctx.Bucket.Bucket], bktVal[ctx.Bucket.Bucket]
+//@   ensures[skipped] !proceeds(ctx.Bucket, field, ctx.FieldChecker) ==> ctx.Bucket.Err == old(ctx.Bucket.Err) && kept(ctx.Bucket)
+//@   ensures[empty-is-an-error] proceeds(ctx.Bucket, field, ctx.FieldChecker) && value == "" ==> ctx.Bucket.Err != nil && kept(ctx.Bucket)
+//@   ensures[written] proceeds(ctx.Bucket, field, ctx.FieldChecker) && ctx.Bucket.Err == nil ==> wrote(ctx.Bucket, field, prepend(TypeString, value))
+//@ func (*PersistContext).SetStringList
+//@   props C13
+//@   assume ctx.Bucket != nil && ctx.Bucket.ErrorHolderImpl != nil && ctx.Bucket.Bucket != nil
+//@   modifies ctx.Bucket.Err, bktHas[ctx.Bucket.Bucket], bktSub[ctx.Bucket.Bucket]
+//@   ensures[skipped] !proceeds(ctx.Bucket, field, ctx.FieldChecker) ==> ctx.Bucket.Err == old(ctx.Bucket.Err) && bktHas[ctx.Bucket.Bucket] == old(bktHas[ctx.Bucket.Bucket]) && bktSub[ctx.Bucket.Bucket] == old(bktSub[ctx.Bucket.Bucket])
+//@   ensures[written] proceeds(ctx.Bucket, field, ctx.FieldChecker) && ctx.Bucket.Err == nil ==> bktHas[ctx.Bucket.Bucket][field] && bktSub[ctx.Bucket.Bucket][field] != 0 && listed(bktHas[bktSub[ctx.Bucket.Bucket][field]], value)
+//@ func (*PersistContext).SetMap
+//@   props C13
+//@   assume ctx.Bucket != nil && ctx.Bucket.ErrorHolderImpl != nil && ctx.Bucket.Bucket != nil
+//@   modifies ctx.Bucket.Err, bktHas[ctx.Bucket.Bucket], bktSub[ctx.Bucket.Bucket]
+//@   ensures[skipped] !proceeds(ctx.Bucket, field, ctx.FieldChecker) ==> ctx.Bucket.Err == old(ctx.Bucket.Err) && bktHas[ctx.Bucket.Bucket] == old(bktHas[ctx.Bucket.Bucket]) && bktSub[ctx.Bucket.Bucket] == old(bktSub[ctx.Bucket.Bucket])
+//@   ensures[scalar-entries-written] proceeds(ctx.Bucket, field, ctx.FieldChecker) && ctx.Bucket.Err == nil ==> forallStr(k, has(value, k) && isScalar(value[k]) ==> bcell(bktSub[ctx.Bucket.Bucket][field], k) == encScalar(value[k]))
+
+// base values: an update never touches the system-entity flag (C16), a create writes it only when set
+//@ func (*BaseExtEntity).UpdateBaseValues
+//@   props C13 C16
+//@   assume ctx != nil && ctx.Bucket != nil && ctx.Bucket.ErrorHolderImpl != nil && ctx.Bucket.Bucket != nil
+//@   modifies ctx.Bucket.Err, bktHas[ctx.Bucket.Bucket], bktVal[ctx.Bucket.Bucket], bktSub[ctx.Bucket.Bucket]
+//@   ensures[only-updatedAt-and-tags] forallStr(s, s != FieldUpdatedAt && s != FieldTags ==> sel(bktHas[ctx.Bucket.Bucket], s) == sel(old(bktHas[ctx.Bucket.Bucket]), s) && sel(bktVal[ctx.Bucket.Bucket], s) == sel(old(bktVal[ctx.Bucket.Bucket]), s) && sel(bktSub[ctx.Bucket.Bucket], s) == sel(old(bktSub[ctx.Bucket.Bucket]), s))
+//@ func (*BaseExtEntity).SetBaseValues
+//@   props C13 C16
+//@   assume ctx != nil && ctx.Bucket != nil && ctx.Bucket.ErrorHolderImpl != nil && ctx.Bucket.Bucket != nil
+//@   modifies ctx.Bucket.Err, bktHas[ctx.Bucket.Bucket], bktVal[ctx.Bucket.Bucket], bktSub[ctx.Bucket.Bucket]
+//@   ensures[flag-fixed-at-creation] !ctx.IsCreate ==> cell(ctx.Bucket, FieldIsSystemEntity) == old(cell(ctx.Bucket, FieldIsSystemEntity))
+//@ func (*BaseExtEntity).CreateBaseValues
+//@   props C13 C16
+//@   assume ctx != nil && ctx.Bucket != nil && ctx.Bucket.ErrorHolderImpl != nil && ctx.Bucket.Bucket != nil
+//@   modifies ctx.Bucket.Err, bktHas[ctx.Bucket.Bucket], bktVal[ctx.Bucket.Bucket], bktSub[ctx.Bucket.Bucket]
+//@   ensures[flag-only-when-set] !entity.IsSystem ==> cell(ctx.Bucket, FieldIsSystemEntity) == old(cell(ctx.Bucket, FieldIsSystemEntity))
+//@   ensures[flag-written-when-set] entity.IsSystem && old(ctx.Bucket.Err) == nil && ctx.Bucket.Err == nil ==> cell(ctx.Bucket, FieldIsSystemEntity) == encBool(true)
